@@ -107,7 +107,9 @@ def main():
 
     ctx.reduced = bool(os.environ.get('VERIF_CHILD'))
     mod.main(ctx)
-    if not os.environ.get('VERIF_CHILD') and not os.environ.get('VERIF_NO_CHILD'):
+    if not os.environ.get('VERIF_CHILD') and not os.environ.get('VERIF_NO_CHILD') and not (
+            os.environ.get('VERIF_AUDIT') and ctx.violations):
+        # (sensitivity audits only need the first verdict: they skip the variant run once the main run has failed)
         run_variant(ctx, pid, args.tier, seed)
     if os.environ.get('VERIF_COVER'):
         from lib import cover
